@@ -2,6 +2,7 @@ package main
 
 import (
 	"fmt"
+	"go/ast"
 	"go/token"
 	"go/types"
 	"strings"
@@ -184,6 +185,17 @@ func (g *FnGen) loopEnv(b *ssa.BasicBlock, valueOf func(phi *ssa.Phi) Val) map[s
 	for k, v := range g.env {
 		env[k] = v
 	}
+	save := g.curBlock
+	saveIdx := g.curIdx
+	if g.curBlock != b {
+		// evaluating for the header from a back-edge source: locals as seen at the end of that block
+	} else {
+		g.curIdx = 0
+	}
+	for k, v := range g.localsNow() {
+		env[k] = v
+	}
+	g.curBlock, g.curIdx = save, saveIdx
 	for k, v := range g.ghostLocals {
 		env[k] = v
 	}
@@ -310,12 +322,14 @@ func (g *FnGen) processBlock(b *ssa.BasicBlock) {
 		}
 	}
 
-	for _, ins := range b.Instrs {
+	for i, ins := range b.Instrs {
 		if _, ok := ins.(*ssa.Phi); ok {
 			continue
 		}
+		g.curIdx = i
 		g.instr(ins)
 	}
+	g.curIdx = len(b.Instrs)
 	g.exitState[b] = g.st
 
 	// back edges out of this block: invariant preserved
@@ -380,6 +394,21 @@ func (g *FnGen) instr(ins ssa.Instruction) {
 	guard := g.curGuard
 	switch x := ins.(type) {
 	case *ssa.DebugRef:
+		if id, ok := x.Expr.(*ast.Ident); ok && !x.IsAddr && g.parent == nil {
+			var lv Val
+			have := false
+			if v, ok := g.vals[x.X]; ok {
+				lv, have = v, true
+			} else if c, ok := x.X.(*ssa.Const); ok {
+				lv, have = g.constVal(c), true
+			}
+			if have {
+				if g.localDefs == nil {
+					g.localDefs = map[string][]localDef{}
+				}
+				g.localDefs[id.Name] = append(g.localDefs[id.Name], localDef{g.curBlock, g.curIdx, lv})
+			}
+		}
 	case *ssa.Alloc:
 		g.doAlloc(x)
 	case *ssa.BinOp:
